@@ -8,7 +8,7 @@ LEAN_TARGETS = ['LLTD.Props.C07']
 VARIANT = 'plain'
 RULE = ('histories with k in {0,1,maxD-1,maxD,maxD+1,2maxD+3,300,random} distinct Probe/Train observations (maxD = (MTU-34)/20) plus '
         'duplicates, frames for other stations and near-collision sources, interleaved Discover/Emit/QueryLargeTlv, followed by Queries '
-        'until the more flag clears and one extra Query, then more observations and a Reset; MTU in {576,1500,9216}, direct and bridged '
+        'until the more flag clears and one extra Query, then more observations and a Reset; MTU in {576,1500,9216,1492,1472, 576+0..39 (every residue of the descriptor size), random}, direct and bridged '
         'mapper; non-trivial = a QueryResp listing at least one observation; distinct = distinct projected transcript')
 ASSUMPTIONS = ['port contract as for C02', 'at most 300 distinct observations between Queries (the property\'s domain); beyond that the predicate is silent until a Reset']
 
@@ -22,7 +22,7 @@ def cases(rng, tier, X):
     n = 120 if tier == 'quick' else 8000
     out = []
     for k in range(n):
-        mtu = rng.choice([576, 576, 1500, 9216])
+        mtu = rng.choice([576, 1500, 9216, 1492, 1472, 576 + rng.randrange(40), 576 + rng.randrange(40), rng.randint(576, 9216)])
         maxd = (mtu - 34) // 20
         own = F.OWN
         mapper = rng.choice(F.STATIONS)
